@@ -193,9 +193,13 @@ impl<'tcx> Cx<'tcx> {
                 }
                 _ => format!("{}", bits),
             };
-        } else if let mir::Const::Val(cv, cty) = c.const_ {
-            if let ty::Ref(_, inner, _) = cty.kind() {
-                if inner.is_str() {
+        } else if let ty::Ref(_, inner, _) = ty.kind() {
+            if inner.is_str() {
+                let cv = match c.const_ {
+                    mir::Const::Val(cv, _) => Some(cv),
+                    _ => c.const_.eval(tcx, env, c.span).ok(),
+                };
+                if let Some(cv) = cv {
                     if let Some(bytes) = cv.try_get_slice_bytes_for_diagnostics(tcx) {
                         if let Ok(s) = std::str::from_utf8(bytes) {
                             extra = format!(",\"str\":{}", q(s));
